@@ -98,7 +98,7 @@ func (p *Prog) globalInvObligations(pkgPath string, invs []Clause, prop string) 
 					}
 					if mentioned {
 						out = append(out, &Obligation{Name: sk + "/GLOBAL.frame." + g.Name(), Class: "FRAME", Props: []string{prop}, Expect: "unsat", Status: "failed",
-							Desc: "package-level variable " + g.Name() + " (subject of a global invariant) is written outside init, in " + p.shortKey(key),
+							Desc:    "package-level variable " + g.Name() + " (subject of a global invariant) is written outside init, in " + p.shortKey(key),
 							FuncKey: sk, Result: SolverResult{Solver: "govc", Answer: "global-written"}})
 					}
 				}
@@ -106,7 +106,7 @@ func (p *Prog) globalInvObligations(pkgPath string, invs []Clause, prop string) 
 		}
 	}
 	out = append(out, &Obligation{Name: sk + "/GLOBAL.frame", Class: "FRAME", Props: []string{prop}, Expect: "unsat", Status: "discharged",
-		Desc: "no function other than init stores to the package-level variables named in the global invariants (scan of every function in the module)",
+		Desc:    "no function other than init stores to the package-level variables named in the global invariants (scan of every function in the module)",
 		FuncKey: sk, Result: SolverResult{Solver: "govc-structural", Answer: "unsat"}})
 	src, h := p.funcSource(initFn)
 	return out, funcInfo{Key: sk, Source: src, Hash: h, Obls: len(out)}, nil
